@@ -25,7 +25,7 @@ import (
 
 func init() {
 	register(&Prop{
-		ID: "C14", HangIsViolation: true, Gen: genC14, GenRace: genC14, Run: runC14, Quick: 2000, Thorough: 80000, RaceQuick: 250, RaceThorough: 6000,
+		ID: "C14", HangIsViolation: true, Gen: genC14, GenRace: genC14, Run: runC14, Quick: 2000, Thorough: 250000, RaceQuick: 500, RaceThorough: 12000,
 		Real: []string{"pkg/exporter: InitExportingProcess, SendSet, template refresh goroutine (UDP), connection-check goroutine (TCP), CloseConnToCollector / closeConnToCollector", "pkg/entities"},
 		Stub: []string{"OS sockets (simnet; after the peer's FIN a write succeeds and vanishes, as with a real kernel)", "wall clock (synctest bubble)", "goroutine scheduling (sim layer: seeded baton scheduler with preemptions; race layer: Go scheduler under the race detector, application confined to one goroutine)"},
 		Rule: "application sends placed on / 1 ns around refresh ticks, first template before or after the first tick, peer close at a seeded time, write error on a refresh datagram, CloseConnToCollector from 1-3 other goroutines concurrently and repeatedly, sends after Close; non-trivial = at least one refresh burst or connection check overlapped with application activity, or a concurrent Close; distinct = distinct event-log hash (sim) / plan seed (race)",
@@ -84,6 +84,11 @@ func genC14(seed uint64, tier string) *plan.Plan {
 				t = now + time.Duration(r.Int64N(int64(R)))
 			}
 			advTo(t)
+			if nT < 6 && r.IntN(3) == 0 {
+				// a template that is new to the exporter, sent on / next to the tick
+				pl.Ops = append(pl.Ops, plan.Op{K: "tmpl", A: int64(nT), N: pickElems(r, 1+r.IntN(4), true)})
+				nT++
+			}
 		default:
 			if nT < 5 {
 				pl.Ops = append(pl.Ops, plan.Op{K: "tmpl", A: int64(nT), N: pickElems(r, 1+r.IntN(4), true)})
